@@ -396,11 +396,11 @@ def _print_chunk(chunk):
 # ------------------------------------------------------------------ through the client
 DOC_EXAMPLES = {
     "reserved_space": ["100MB", "100 M", "100000000B", "100000000", "100000kb", "1MiB", "1024KiB", "1024 Ki", "1048576 B", "1G", "10000000000", "5kb", "5 kB", "5 KiB",
-                       "1.5G", "-1", "1 cubit", "5k\u0131b", "\u0665K", "1K B"],
+                       "1.5G", "-1", "1 cubit", "5k\u0131b", "\u0665K", "1K B", "", "   "],
     "expire.override_lease_duration": ["7days", "31day", "60 days", "2mo", "3 month", "12 months", "2years", "5 s", "90 SECONDS", "7", "days", "7 weeks", "1.5 days",
-                                       "\u0663days", "7 day\u017f", "7\u00a0days"],
+                                       "\u0663days", "7 day\u017f", "7\u00a0days", "", "   "],
     "expire.cutoff_date": ["2009-01-16", "2008-02-02", "2007-12-25", "2024-02-29", "2009-02-30", "2009-01-32", "2009-01-00", "2009-13-01", "2009-01-16 12:34:56", "2009/01/16",
-                           "\u0662\u0660\u0660\u0669-\u0660\u0661-\u0661\u0666", "2009-1-16"],
+                           "\u0662\u0660\u0660\u0669-\u0660\u0661-\u0661\u0666", "2009-1-16", "", "   "],
 }
 
 
@@ -449,6 +449,9 @@ def client_case(key, value, tmp):
                 sig = "size:documented-space-form-rejected"
             bad.append((sig, "tahoe.cfg [storage]%s = %s : node start-up raised %s; documented meaning %d" % (key, value, exc, want)))
         return "%s:rejected:%s" % (zone, exc), bad
+    if parser == "size" and seen == "" and got == 0:
+        # parse_abbreviated_size documents "" (like None) as "no value"; the node then reserves nothing
+        return "empty:unset", bad
     if zone == "malformed":
         bad.append((malformed_sig(parser, seen), "tahoe.cfg [storage]%s = %s : accepted as %r; the value is outside the documented grammar" % (key, value, got)))
         return "malformed:ACCEPTED", bad
